@@ -4,6 +4,7 @@ package main
 
 import (
 	"fmt"
+	"os"
 	"sort"
 	"strings"
 	"sync"
@@ -170,13 +171,17 @@ func (e *Exec) addFinding(kind, label, msg string) {
 	if r == RSat {
 		vars := make([]*Term, 0, len(e.inputs))
 		for _, in := range e.inputs {
-			vars = append(vars, in.T)
+			if !in.T.IsConst() {
+				vars = append(vars, in.T)
+			}
 		}
 		m := e.sol.Model(vars)
 		fd.Inputs = map[string]uint64{}
 		for _, in := range e.inputs {
 			fd.Order = append(fd.Order, in.Name)
-			if v, ok := m[in.T.Name]; ok {
+			if in.T.IsConst() {
+				fd.Inputs[in.Name] = in.T.Val
+			} else if v, ok := m[in.T.Name]; ok {
 				fd.Inputs[in.Name] = v
 			}
 		}
@@ -487,6 +492,7 @@ func explore(prog *Program, cfg *Config, harness string) *HarnessResult {
 	active := 0
 	inconSeen := map[string]bool{}
 	findSeen := map[string]bool{}
+	labelTimes := map[string]time.Duration{}
 	var wg sync.WaitGroup
 	for w := 0; w < cfg.Workers; w++ {
 		wg.Add(1)
@@ -494,6 +500,16 @@ func explore(prog *Program, cfg *Config, harness string) *HarnessResult {
 			defer wg.Done()
 			sol := NewSolver(cfg.SolverBin, cfg.TimeoutMs)
 			sol.keepLog = cfg.KeepSMT
+			if os.Getenv("VERIF_DEBUG") != "" {
+				sol.byLabel = map[string]time.Duration{}
+				defer func() {
+					mu.Lock()
+					for k, v := range sol.byLabel {
+						labelTimes[k] += v
+					}
+					mu.Unlock()
+				}()
+			}
 			if cfg.SolverBin == "z3-new" {
 				sol.alt = "z3"
 			} else if cfg.SolverBin == "z3" {
@@ -580,6 +596,23 @@ func explore(prog *Program, cfg *Config, harness string) *HarnessResult {
 	}
 	wg.Wait()
 	hr.Wall = time.Since(start)
+	if len(labelTimes) > 0 {
+		type kv struct {
+			k string
+			v time.Duration
+		}
+		var kvs []kv
+		for k, v := range labelTimes {
+			kvs = append(kvs, kv{k, v})
+		}
+		sort.Slice(kvs, func(i, j int) bool { return kvs[i].v > kvs[j].v })
+		for i, x := range kvs {
+			if i >= 8 {
+				break
+			}
+			fmt.Fprintf(os.Stderr, "  time %-60s %.1fs\n", x.k, x.v.Seconds())
+		}
+	}
 	if hr.Truncated {
 		hr.Incon = append(hr.Incon, fmt.Sprintf("exploration truncated at %d paths (bound)", hr.Paths+hr.Infeasible))
 	}
